@@ -39,8 +39,11 @@ class Outcome:
     def probe(self, k, n=1):
         self.probes[k] = self.probes.get(k, 0) + n
 
-    def violate(self, cls, sig, detail):
-        self.violations.append({"cls": cls, "sig": sig, "detail": detail if isinstance(detail, list) else [detail]})
+    def violate(self, cls, sig, detail, ids=None):
+        # ids: what exactly disagrees (e.g. the finding ids); the shrinker keeps (cls, ids) fixed so that it
+        # cannot slide from one defect to another
+        self.violations.append({"cls": cls, "sig": sig, "detail": detail if isinstance(detail, list) else [detail],
+                                "ids": ids or ""})
 
     def account(self, r):
         """Book-keeping for one simulated run result."""
@@ -109,12 +112,12 @@ def _cand_worker(job):
     prop, cand, scratch, tag = job
     try:
         out = execute_fresh(prop, cand, scratch, tag)
-        return [(v["cls"], v["sig"]) for v in out.violations]
+        return [(v["cls"], v.get("ids", "")) for v in out.violations]
     except Exception:
         return []
 
 
-def shrink(prop, scn, cls, scratch, budget_runs=240, budget_s=150, pool=None):
+def shrink(prop, scn, cls, scratch, budget_runs=240, budget_s=150, pool=None, ids=""):
     """Greedy delta debugging over the property's candidate stream; keeps the same violation class."""
     t0 = time.time()
     tried = 0
@@ -141,7 +144,7 @@ def shrink(prop, scn, cls, scratch, budget_runs=240, budget_s=150, pool=None):
             tried += len(win)
             hit = None
             for c, r in zip(win, res):
-                if any(rc == cls for rc, _ in r):
+                if any(rc == cls and ri == ids for rc, ri in r):
                     hit = c
                     break
             if hit is not None:
@@ -273,9 +276,9 @@ def _batch(prop, seed, tier, scratch, t0):
             per_cls_budget[cls] = per_cls_budget.get(cls, 0) + 1
             small, tried = (scn, 0)
             if per_cls_budget[cls] <= 10:
-                small, tried = shrink(prop, scn, cls, scratch, pool=pool)
+                small, tried = shrink(prop, scn, cls, scratch, pool=pool, ids=v.get("ids", ""))
             out3 = execute_fresh(prop, small, scratch, "min%d" % idx)
-            v3 = next((x for x in out3.violations if x["cls"] == cls), None)
+            v3 = next((x for x in out3.violations if x["cls"] == cls and x.get("ids", "") == v.get("ids", "")), None)
             if v3 is None:
                 small, v3 = scn, v
             kf = _match_known(known, cls, v3["sig"])
